@@ -47,7 +47,7 @@ Inductive cmd :=
 
 (* ---- flags ---- *)
 Definition deleted_flag : flag := deleted_flag_name.
-Definition recent_flag : flag := "\Recent"%string.
+Definition recent_flag : flag := recent_flag_name.
 Definition fwd_flags : list flag := ["$Forwarded"%string; "Forwarded"%string].
 
 Definition has_ci (f : flag) (l : list flag) : bool := fmem_ci f l.
